@@ -173,10 +173,15 @@ class Interp:
         c = self.env[op['id']]
         if 'amb' in op:
             r = c.forall(self.env[op['amb']])
-        elif op.get('aslist'):
-            r = c.forall(self._cs(op['set']))
         else:
-            r = c.forall(*self._cs(op['set']))
+            if 'setfrom' in op:
+                # the very set-constraint objects another forall() call was given (kept alive under that call's id)
+                cs = self.env['set:' + op['setfrom']]
+            else:
+                cs = self._cs(op['set'])
+                if 'to' not in op:
+                    self.env['set:' + op['id']] = cs
+            r = c.forall(cs) if op.get('aslist') else c.forall(*cs)
         self.env[op.get('to', op['id'])] = r
 
     def op_st(self, op):
